@@ -23,7 +23,9 @@ RULE = ('well-formed expressions of depth <=5 (thorough <=6) from a typed '
         'site, unbound names, def names under which the library has methods '
         '(len, sum, first, select, where, toList, any); documents are '
         'generated, plus collections mixing records and nested lists of '
-        'records under member access; histories of evaluations that are '
+        'records under member access; index forms with null defaults and '
+        'with maps / lists as keys of map literals (equal maps written in '
+        'different key orders); histories of evaluations that are '
         'given no context, '
         'with the document and then with no data at all (`$` unknown); '
         'non-trivial = scope '
@@ -91,6 +93,10 @@ def check_program(run, case):
              fp=(text, doc), cls=['program'] + ['has-' + f for f in feats] + [
                  'model-' + exp[0]])
     ic = '+'.join(sorted(feats)) or 'plain'
+    if exp[0] == 'ok' and R.has_container_key(exp[1]):
+        run.exclude('the result has a list or map as dictionary key (cannot '
+                    'be finalised: known finding of C10)')
+        return
     if exp[0] == 'err':
         if exp[1] == 'budget':
             run.exclude('model step budget')
@@ -629,6 +635,46 @@ MIXED_ASTS = [
 ]
 
 
+# index forms: null defaults, maps and lists as keys of map literals
+_M1 = ('map', ((('kw', 'a'), ('int', 1)), (('kw', 'b'), ('int', 2))))
+_M2 = ('map', ((('kw', 'b'), ('int', 2)), (('kw', 'a'), ('int', 1))))
+_M3 = ('map', ((('kw', 'a'), ('int', 1)), (('kw', 'b'), ('int', 3))))
+INDEX_ASTS = [
+    ('idxd', _M1, ('str', 'zz'), ('null',)),
+    ('idxd', _M1, ('kw', 'zz'), ('var', '$nothing')),
+    ('idxd', _M1, ('kw', 'a'), ('null',)),
+    ('idxd', ('dot', ('var', '$'), 'rec'), ('str', 'zz'),
+     ('dot', ('var', '$'), 'none')),
+    ('m', ('dot', ('var', '$'), 'mixed'), 'select',
+     (('idxd', ('var', '$'), ('str', 'zz'), ('null',)),)),
+    ('idx', ('map', ((_M1, ('str', 'hit')),)), _M2),
+    ('idxd', ('map', ((_M1, ('str', 'hit')),)), _M3, ('str', 'miss')),
+    ('list', (('idx', ('map', ((_M1, ('int', 1)), (_M2, ('int', 2)))), _M1),
+              ('idx', ('map', ((_M1, ('int', 1)), (_M2, ('int', 2)))), _M2))),
+    ('list', (('idx', ('map', ((_M1, ('int', 1)), (_M3, ('int', 2)))), _M2),
+              ('idxd', ('map', ((_M1, ('int', 1)), (_M3, ('int', 2)))), _M3,
+               ('int', 0)))),
+    ('idx', ('map', ((('idx', ('dot', ('var', '$'), 'pair'), ('int', 0)),
+                      ('str', 'hit')),)),
+     ('idx', ('dot', ('var', '$'), 'pair'), ('int', 1))),
+    ('idx', ('map', ((('list', (('int', 1), ('int', 2))), ('str', 'L')),)),
+     ('list', (('int', 1), ('int', 2)))),
+    ('idxd', ('map', ((('list', (('int', 1), _M1)), ('str', 'L')),)),
+     ('list', (('int', 1), _M2)), ('null',)),
+]
+
+
+def index_cases():
+    return st.builds(
+        lambda a, m, x, y: {
+            'kind': 'program', 'ast': a, 'features': ['shadow'],
+            'doc': {'mixed': [r for r in m if isinstance(r, dict)],
+                    'rec': {'a': x}, 'none': None,
+                    'pair': [{'a': x, 'b': y}, {'b': y, 'a': x}]}},
+        st.sampled_from(INDEX_ASTS), _mixed, st.integers(0, 2),
+        st.integers(0, 2))
+
+
 def mixed_cases():
     return st.builds(
         lambda a, m, g: {'kind': 'program', 'ast': a, 'features': ['shadow'],
@@ -642,6 +688,8 @@ def _shard(run, n, depth, shard):
             shard=shard)
     run.hyp('mixed-collections', mixed_cases(),
             lambda c: check_program(run, c), max(n // 10, 5), shard=shard)
+    run.hyp('index-forms', index_cases(),
+            lambda c: check_program(run, c), max(n // 12, 5), shard=shard)
     run.hyp('contextless', contextless_cases(3),
             lambda c: check_contextless(run, c), max(n // 10, 5),
             shard=shard)
